@@ -100,6 +100,12 @@ func (o *Object) String() string {
 }
 
 func (o *Object) IsSpatial() bool {
+	switch o.geo().(type) {
+	case *geojson.Circle:
+		// A Feature with circle properties parses to *geojson.Circle, which
+		// has a Spatial() method but does not implement geojson.Spatial.
+		return true
+	}
 	_, ok := o.geo().(geojson.Spatial)
 	return ok
 }
